@@ -141,7 +141,8 @@ def price_world(chk, rng, wi):
         a_, b_ = rng.sample(list(CURS), 2)
         amt = F(rng.randint(1, 10 ** 7), 10 ** rng.randint(1, 6))
         pre.append({"id": "$x%d" % si,
-                    "e": ["c", XR, [U(a_), ["i", 1], U(b_), num(amt)]]})
+                    "e": ["c", XR, [U(a_), ["i", rng.choice([1, 1, 100, 1000])],
+                                    U(b_), num(amt)]]})
         shared.append((a_, b_, amt, "$x%d" % si))
     for j in range(40):
         if not keys:
@@ -172,7 +173,8 @@ def price_world(chk, rng, wi):
                 else:
                     a = cur
                     b = rng.choice([c for c in CURS if c != cur])
-                xexpr = ["c", XR, [U(a), ["i", 1], U(b), num(rate_amt)]]
+                xexpr = ["c", XR, [U(a), ["i", rng.choice([1, 10, 100])], U(b),
+                                   num(rate_amt)]]
             if rng.random() < 0.6:
                 cand = [s_ for s_ in shared if cur in s_[:2]] or shared
                 a, b, rate_amt, var = rng.choice(cand)
